@@ -1,7 +1,43 @@
-//! Correspondence harness of property C16 (stub).
-use mzkh::Ctx;
+//! probe (temporary)
+use std::collections::HashMap;
+use midnight_zk_stdlib::{MidnightCircuit, Relation};
+use midnight_zkir::{IrValue, ZkirRelation};
+type F = midnight_curves::Fq;
 
 fn main() {
-    let ctx = Ctx::from_args("C16");
-    ctx.finish();
+    mzkh::quiet_panics();
+    let js = r#"{"instructions":[{"op":{"load":"Native"},"outputs":["x"]},{"op":{"into_bytes":4294967297},"inputs":["x"],"outputs":["b"]},{"op":"publish","inputs":["b"]}]}"#;
+    let rel = ZkirRelation::read(js).unwrap();
+    let mut b = vec![];
+    rel.write_relation(&mut b).unwrap();
+    println!("bincode: {:02x?}", b);
+    let w: HashMap<&'static str, IrValue> = HashMap::from_iter([("x", F::from(5).into())]);
+    let r = mzkh::catch(|| rel.public_inputs(w.clone()).map(|v| v.len()));
+    println!("public_inputs into_bytes(2^32+1): {:?}", r);
+    for js in [
+        r#"{"instructions":[{"op":{"load":{"Bytes":0}},"outputs":["x"]}]}"#,
+        r#"{"instructions":[{"op":{"load":{"BigUint":0}},"outputs":["x"]}]}"#,
+        r#"{"instructions":[{"op":{"load":"Native"},"outputs":["x"]},{"op":{"into_bytes":33},"inputs":["x"],"outputs":["b"]}]}"#,
+        r#"{"instructions":[{"op":{"load":"Native"},"outputs":["x"]},{"op":{"into_bytes":0},"inputs":["x"],"outputs":["b"]}]}"#,
+        r#"{"instructions":[{"op":{"load":"Native"},"outputs":["x","x"]}]}"#,
+        r#"{"instructions":[{"op":{"from_bytes":{"Bytes":3}},"inputs":["0xFFFF"],"outputs":["b"]}]}"#,
+    ] {
+        let r = mzkh::catch(|| ZkirRelation::read(js).map(|rel| {
+            let c = mzkh::catch(|| MidnightCircuit::from_relation(&rel).min_k());
+            format!("compile={:?}", c)
+        }));
+        println!("{js}\n   -> {:?}", r);
+    }
+    // bincode length field
+    for bytes in [
+        vec![0xfdu8, 0,0,0,0,0,0,0,0x10],           // 2^60 instructions
+        vec![0xfd, 0xff,0xff,0xff,0xff,0xff,0xff,0xff,0xff],
+        vec![0xfc, 0,0,0x10,0],           // 2^20 instructions
+        vec![1, 0, 0, 0, 1, 0xfd, 0,0,0,0,0,0,0,0x10], // 1 instr: Load(Bool), inputs len 0, outputs len=1: string len 2^60
+        vec![1, 0, 0, 0, 1, 0xfc, 0,0,0,0x10], // string len 2^28
+    ] {
+        let t = std::time::Instant::now();
+        let r = mzkh::catch(|| ZkirRelation::read_relation(&mut &bytes[..]).map(|_| ()).map_err(|e| e.to_string()));
+        println!("{:02x?} -> {:?} {:?}", bytes, r, t.elapsed());
+    }
 }
